@@ -155,6 +155,13 @@ func (r *Run) EvalN(n int, key string) {
 	r.mu.Unlock()
 }
 
+// NeedSample reports whether the evidence still has room for sample cases.
+func (r *Run) NeedSample() bool {
+	r.mu.Lock()
+	defer r.mu.Unlock()
+	return len(r.samples) < 6
+}
+
 func (r *Run) Sample(x any) {
 	r.mu.Lock()
 	if len(r.samples) < 6 {
